@@ -1052,11 +1052,48 @@ func nullSpellHandler(c *Ctx, b *Body) {
 					continue
 				}
 				cv, _ := stripNot(iff.Cond)
-				if call, ok := cv.(*ssa.Call); ok && isLazyNodeBoolMethod(&call.Call) {
+				isConsult := func(v ssa.Value) bool {
+					call, ok := v.(*ssa.Call)
+					if !ok || !isLazyNodeBoolMethod(&call.Call) {
+						return false
+					}
 					for _, a := range call.Call.Args {
 						if a == val {
-							consults = true
+							return true
 						}
+					}
+					return false
+				}
+				if isConsult(cv) {
+					consults = true
+				}
+				// a verdict variable: on every edge that comes from the non-nil side it holds a comparison of the node
+				if phi, ok := cv.(*ssa.Phi); ok {
+					all, any := true, false
+					nilSide := map[*ssa.BasicBlock]bool{}
+					var markNil func(bb *ssa.BasicBlock)
+					markNil = func(bb *ssa.BasicBlock) {
+						if nilSide[bb] || bb == phi.Block() {
+							return
+						}
+						nilSide[bb] = true
+						for _, sx := range bb.Succs {
+							markNil(sx)
+						}
+					}
+					markNil(t.Blk.Succs[1-t.NonNilSucc])
+					for i, e := range phi.Edges {
+						p := phi.Block().Preds[i]
+						if !fromNonNil[p] || nilSide[p] {
+							continue
+						}
+						any = true
+						if !isConsult(e) {
+							all = false
+						}
+					}
+					if any && all {
+						consults = true
 					}
 				}
 				// the operation has no value member at all (the accessor's result itself is nil)
